@@ -27,7 +27,8 @@ from vlib.util import reldiff, maxabs
 from vlib import wbsys
 
 PROPERTY_ID = "C22"
-RULE = ("reciprocal lattice of a lattice from 11 families (+rotation), Monkhorst-Pack mesh in [1..6]^3 with <= 48 points, "
+RULE = ("reciprocal lattice of a lattice from 11 families (+rotation; cell edges generic or, in 1/4 of the cases, "
+        "commensurate values 0.75..3 that create accidental shell degeneracies), Monkhorst-Pack mesh in [1..6]^3 with <= 48 points, "
         "k-points listed in a drawn permutation; non-trivial = at least two shells chosen or a non-orthogonal lattice; "
         "distinctness by the full case")
 ASSUMPTIONS = ["default tolerances of from_kpoints: kmesh_tol=1e-7, bk_complete_tol=1e-5, search_supercell=2",
@@ -48,6 +49,10 @@ SAME = 1e-9
 @st.composite
 def case_st(draw):
     lat = draw(wbsys.lattice_st())
+    if draw(st.integers(0, 3)) == 0:  # commensurate cell edges: accidental degeneracies between shells of different directions
+        for key in ("a", "b", "c"):
+            lat[key] = draw(st.sampled_from([1.0, 3.0, 2.0, 1.5, 2.5, 0.75]))
+        lat["commensurate"] = True
     shape = draw(st.sampled_from(["uniform", "any", "any"]))
     if shape == "uniform":
         n = draw(st.integers(1, 3))
@@ -110,7 +115,7 @@ def check(case):
     aspect = float(steps.max() / steps.min())
     labels = [f"lat={kind}", "uniform-mesh" if len(set(case["mp"])) == 1 else "anisotropic-mesh",
               "permuted" if np.any(perm != np.arange(N)) else "natural-order",
-              "aspect<=2" if aspect <= 2 else "aspect>2"]
+              "aspect<=2" if aspect <= 2 else "aspect>2", "commensurate-edges" if case["lat"].get("commensurate") else None]
     try:
         bk = BKVectors.from_kpoints(recip_lattice=B.copy(), mp_grid=mp.copy(), kpoints_red=kpts.copy())
     except RuntimeError as e:
